@@ -134,4 +134,14 @@ PROPS = {
         "assumptions": ["symbolic cryptography: HMAC-SHA256, SHA-256, its 16-byte prefix and ChaCha20-Poly1305 are free injective non-invertible constructors, random values are fresh atoms, the attacker is the Dolev-Yao closure; computational soundness and collision probabilities are outside the theorems",
                         "data caveats are abstract in this layer (identity = canonical encoding, attestation flag, wraps-attestation flag); the Go side maps real caveats to identities through their canonical encoding"],
     },
+    "C20": {
+        "obligation_files": ["Properties/C20.v"],
+        "model_files": ["Model/TPClient.v", "Corr/Transport.v", "Corr/RunC.v"],
+        "rule": "stream client-opts: 1-3 third-party locations over 12 authority variants (port, case, sub-/super-domain, look-alike suffix/prefix, userinfo tricks, IP literals, base paths), 1-2 permission tokens with third-party caveats, 0-6 client options in random order and repetition "
+                "(WithHTTP with 3 capturing transports, WithAuthentication / WithBearerAuthentication for configured or other hosts incl. non-URL locations and empty credentials, WithIgnoredThirdParties, WithPollingBackoff) and scripted third-party replies "
+                "(immediate discharge, poll URL on an arbitrary host with 0-2 'not ready', 307 redirects to arbitrary hosts nested up to 3 deep, errors); observable = multiset of (transport, URL hostname, Authorization) of every captured request and the number of discharges appended; "
+                "implementation-side oracle on the returned header (scheme prefix kept, caller's tokens unchanged and in order, discharges appended); non-trivial = at least one request was made",
+        "assumptions": ["net/url (Parse, IsAbs, Hostname) and net/http's redirect following are trusted and exercised, not modelled: the model works on the hostnames Go reports",
+                        "net/http adds 'Basic <userinfo>' itself for URLs carrying userinfo; the harness does not count that as a configured credential"],
+    },
 }
